@@ -14,10 +14,11 @@ open Katib Katib.Exp
 /-- the invariant of the simulator state: the live store and every snapshot satisfy `WInv`, and every snapshot is in the
     past of the live store -/
 def SInv (k : Key2) (m : Int) (s : Sim) : Prop :=
-  WInv k m s.cur ∧ ∀ (i : Nat) (h : World), s.hist[i]? = some h → WInv k m h ∧ Past k h s.cur
+  (WInv k m s.cur ∧ ∃ p, XInv k (some m) p s.cur) ∧
+  ∀ (i : Nat) (h : World), s.hist[i]? = some h → (WInv k m h ∧ ∃ p, XInv k (some m) p h) ∧ Past k h s.cur
 
 theorem snap_good {k : Key2} {m : Int} {s : Sim} (hI : SInv k m s) (i : Nat) :
-    WInv k m (snapAt s i) ∧ Past k (snapAt s i) s.cur := by
+    (WInv k m (snapAt s i) ∧ ∃ p, XInv k (some m) p (snapAt s i)) ∧ Past k (snapAt s i) s.cur := by
   unfold snapAt
   cases h : s.hist[i]? with
   | none => exact ⟨hI.1, Past.refl k _⟩
@@ -28,58 +29,68 @@ theorem trialsOf_assemble (s : Sim) (vE vT vS vD : Nat) (k : Key2) : trialsOf (a
 
 /-- what one operation does to the live store -/
 theorem stepWorld_ok {k : Key2} {m : Int} (hm : 0 ≤ m) {s : Sim} (hI : SInv k m s) (op : Op) (hop : ∀ n, op ≠ .editMax k n) :
-    WInv k m (stepWorld s op).1 ∧ Past k s.cur (stepWorld s op).1 := by
+    (WInv k m (stepWorld s op).1 ∧ ∃ p, XInv k (some m) p (stepWorld s op).1) ∧ Past k s.cur (stepWorld s op).1 := by
+  obtain ⟨hW, p, hX⟩ := hI.1
+  have sameX : ∀ w' : World, w'.exps = s.cur.exps → ∃ p, XInv k (some m) p w' := fun w' e =>
+    ⟨p, fun e0 he => by unfold findExp at he; rw [e] at he; exact hX e0 he⟩
+  have fr : ∀ w' : World, w'.trials = s.cur.trials → w'.sugs = s.cur.sugs → w'.exps = s.cur.exps →
+      (WInv k m w' ∧ ∃ p, XInv k (some m) p w') ∧ Past k s.cur w' :=
+    fun w' a b c => ⟨⟨(frame hW a b c).1, sameX w' c⟩, (frame hW a b c).2⟩
   cases op with
   | recExp k' vE vT vS f =>
     have hS := snap_good hI vS
     have hE := snap_good hI vE
     have hT := snap_good hI vT
+    obtain ⟨pE, hXE⟩ := hE.1.2
     have hp := expPlan_vjust (k := k) (m := m) hm (assemble s vE vT vS (s.hist.size - 1)) (snapAt s vS) k' s.opIndex rfl
-      (by intro e he; rw [findExp_assemble] at he; exact hE.1.exp e he)
-      (by rw [trialsOf_assemble]; exact trialsOf_le hm hT.1)
-    exact exec_budget hm f _ hp hI.1 hS.2
+      (by intro e he; rw [findExp_assemble] at he; exact (hXE e he).1)
+      (by rw [trialsOf_assemble]; exact trialsOf_le hm hT.1.1)
+    have := exec_budget hm f _ hp hW hS.2
+    exact ⟨⟨this.1, p, exec_x f _ hX⟩, this.2⟩
   | recSug k' vS vE vT vD f env =>
     have hS := snap_good hI vS
     have hp := sugPlan_vjust (k := k) (m := m) (assemble s vE vT vS vD) (snapAt s vS) k' env s.opIndex rfl
-    exact exec_budget hm f _ hp hI.1 hS.2
+    have := exec_budget hm f _ hp hW hS.2
+    exact ⟨⟨this.1, p, exec_x f _ hX⟩, this.2⟩
   | recTrial k' vT f =>
     have hp := trialPlan_vjust (k := k) (m := m) (assemble s (s.hist.size - 1) vT (s.hist.size - 1) (s.hist.size - 1)) s.cur k' s.opIndex
-    exact exec_budget hm f _ hp hI.1 (Past.refl k _)
+    have := exec_budget hm f _ hp hW (Past.refl k _)
+    exact ⟨⟨this.1, p, exec_x f _ hX⟩, this.2⟩
   | job k' ok =>
     simp only [stepWorld]
     split
-    · exact ⟨hI.1, Past.refl k _⟩
-    · exact frame hI.1 (by rfl) (by rfl) (by rfl)
+    · exact ⟨⟨hW, p, hX⟩, Past.refl k _⟩
+    · exact fr _ (by rfl) (by rfl) (by rfl)
   | metric t text key =>
     simp only [stepWorld]
     split
-    · exact frame hI.1 (by rfl) (by rfl) (by rfl)
-    · exact frame hI.1 (by rfl) (by rfl) (by rfl)
+    · exact fr _ (by rfl) (by rfl) (by rfl)
+    · exact fr _ (by rfl) (by rfl) (by rfl)
   | earlyStop k' =>
     simp only [stepWorld]
     split
-    · exact ⟨hI.1, Past.refl k _⟩
+    · exact ⟨⟨hW, p, hX⟩, Past.refl k _⟩
     · split
-      · exact ⟨hI.1, Past.refl k _⟩
-      · refine frame_trials hI.1 (by rfl) (by rfl) ?_ ?_
+      · exact ⟨⟨hW, p, hX⟩, Past.refl k _⟩
+      · refine (fun (x : WInv k m _ ∧ Past k s.cur _) => ⟨⟨x.1, sameX _ (by rfl)⟩, x.2⟩) (frame_trials hW (by rfl) (by rfl) ?_ ?_)
         · unfold updTrial
           simp only []
           rw [map_key_upd]
-          · exact hI.1.tkeys
+          · exact hW.tkeys
           · intro _; rfl
         · intro t' ht'
           exact mem_upd ht' (fun _ => ⟨rfl, rfl⟩)
   | deployReady k' =>
     simp only [stepWorld]
     split
-    · exact ⟨hI.1, Past.refl k _⟩
-    · exact frame hI.1 (by rfl) (by rfl) (by rfl)
+    · exact ⟨⟨hW, p, hX⟩, Past.refl k _⟩
+    · exact fr _ (by rfl) (by rfl) (by rfl)
   | editMax k' n =>
     have hk : k' ≠ k := fun e => hop n (by rw [e])
     simp only [stepWorld]
     split
-    · exact ⟨hI.1, Past.refl k _⟩
-    · refine ⟨⟨hI.1.tkeys, hI.1.tnames, hI.1.sug, ?_⟩, fun sh hh => ⟨sh, hh, List.prefix_refl _, Nat.le_refl _, fun _ => rfl⟩⟩
+    · exact ⟨⟨hW, p, hX⟩, Past.refl k _⟩
+    · refine ⟨⟨⟨hW.tkeys, hW.tnames, hW.sug⟩, p, ?_⟩, fun sh hh => ⟨sh, hh, List.prefix_refl _, Nat.le_refl _, fun _ => rfl⟩⟩
       intro e he
       have hfe := findExp_updExp s.cur k k' (fun e => { e with maxT := some n, rv := e.rv + 1 }) (fun _ => rfl)
       change findExp (updExp s.cur k' (fun e => { e with maxT := some n, rv := e.rv + 1 })) k = some e at he
@@ -92,8 +103,8 @@ theorem stepWorld_ok {k : Key2} {m : Int} (hm : 0 ≤ m) {s : Sim} (hI : SInv k 
         have hne : ¬ e0.key = k' := fun e => hk (e.symm.trans (findExp_key h0))
         simp only [hne, if_false] at he
         subst he
-        exact hI.1.exp e0 h0
-  | noop => exact ⟨hI.1, Past.refl k _⟩
+        exact hX e0 h0
+  | noop => exact ⟨⟨hW, p, hX⟩, Past.refl k _⟩
 
 theorem step_inv {k : Key2} {m : Int} (hm : 0 ≤ m) {s : Sim} (hI : SInv k m s) (op : Op) (hop : ∀ n, op ≠ .editMax k n) :
     SInv k m (step s op).1 := by
@@ -119,16 +130,22 @@ theorem run_inv {k : Key2} {m : Int} (hm : 0 ≤ m) (ops : List Op) : ∀ {s : S
     exact ih (step_inv hm h op (hops op List.mem_cons_self)) (fun o ho => hops o (List.mem_cons_of_mem _ ho))
 
 theorem init_inv (k : Key2) (m : Int) (es : List ExpInit) (hinit : ∀ e ∈ es, e.key = k → e.maxT = some m) : SInv k m (Sim.init es) := by
-  have hW : WInv k m (Sim.init es).cur := by
-    refine ⟨List.nodup_nil, fun t h => by simp [Sim.init] at h, fun s h => by simp [Sim.init, findSug] at h, ?_⟩
-    intro e he
-    have hk := findExp_key he
-    unfold findExp at he
-    have hmem := List.mem_of_find?_eq_some he
-    simp only [Sim.init, List.mem_map] at hmem
-    obtain ⟨ei, hei, rfl⟩ := hmem
-    exact hinit ei hei hk
-  refine ⟨hW, ?_⟩
+  have hW : WInv k m (Sim.init es).cur :=
+    ⟨List.nodup_nil, fun t h => by simp [Sim.init] at h, fun s h => by simp [Sim.init, findSug] at h⟩
+  have hX : ∃ p, XInv k (some m) p (Sim.init es).cur := by
+    cases hf : findExp (Sim.init es).cur k with
+    | none => exact ⟨0, fun e he => by rw [hf] at he; cases he⟩
+    | some e0 =>
+      refine ⟨e0.par, ?_⟩
+      intro e he
+      rw [hf] at he; cases he
+      have hk := findExp_key hf
+      unfold findExp at hf
+      have hmem := List.mem_of_find?_eq_some hf
+      simp only [Sim.init, List.mem_map] at hmem
+      obtain ⟨ei, hei, rfl⟩ := hmem
+      exact ⟨hinit ei hei hk, rfl⟩
+  refine ⟨⟨hW, hX⟩, ?_⟩
   intro i h hh
   simp only [Sim.init] at hh
   have : h = (Sim.init es).cur := by
@@ -136,7 +153,7 @@ theorem init_inv (k : Key2) (m : Int) (es : List ExpInit) (hinit : ∀ e ∈ es,
     | zero => simp at hh; exact hh.symm
     | succ j => simp at hh
   rw [this]
-  exact ⟨hW, Past.refl k _⟩
+  exact ⟨⟨hW, hX⟩, Past.refl k _⟩
 
 /-- **C01_total** (with C08's append-only assignments at world level). -/
 theorem C01_total (k : Key2) (m : Int) (hm : 0 ≤ m) (es : List ExpInit) (ops : List Op)
@@ -151,16 +168,16 @@ theorem C01_total (k : Key2) (m : Int) (hm : 0 ≤ m) (es : List ExpInit) (ops :
       ∀ sh, findSug h k = some sh → ∃ sc, findSug s.cur k = some sc ∧ sh.st.names <+: sc.st.names) := by
   intro s
   have hI : SInv k m s := run_inv hm ops (init_inv k m es hinit) hops
-  refine ⟨trialsOf_le hm hI.1, ?_, ?_⟩
+  refine ⟨trialsOf_le hm hI.1.1, ?_, ?_⟩
   · intro sg hsg
-    obtain ⟨a, b, c⟩ := hI.1.sug sg hsg
+    obtain ⟨a, b, c⟩ := hI.1.1.sug sg hsg
     refine ⟨a, b, c, ?_⟩
     intro t ht
     obtain ⟨h1, h2, h3⟩ := mem_trialsOf.1 ht
-    obtain ⟨s', hs', hmem⟩ := hI.1.tnames t h1 h2 h3
+    obtain ⟨s', hs', hmem⟩ := hI.1.1.tnames t h1 h2 h3
     rw [hsg] at hs'; cases hs'; exact hmem
   · intro i h hh
-    obtain ⟨hW, hP⟩ := hI.2 i h hh
+    obtain ⟨⟨hW, _⟩, hP⟩ := hI.2 i h hh
     refine ⟨trialsOf_le hm hW, ?_⟩
     intro sh hsh
     obtain ⟨sc, h1, h2, _, _⟩ := hP sh hsh
